@@ -10,7 +10,7 @@ set_option linter.unusedSimpArgs false
     stores created so far, the heap of registry objects is `w.regs`, and the argument `store` is the object of the
     store `share` points at (`None` when `share` is `none` or names no store, as in the model). -/
 
-namespace Cellml.Tie
+namespace Cellml.Tie.PUnits
 open Units Units.Wire Cellml.Gen
 
 /-- the argument `store` of the constructor call the model's `newStore share` stands for -/
@@ -46,4 +46,4 @@ theorem init_prefix (p : Store × Nat) (name : String) (h : Cellml.Gen.cellmlUni
   have h' : name ∉ Cellml.Gen.cellmlUnits := by simpa using h
   simp [storeRef, Units.prefixName, h']
 
-end Cellml.Tie
+end Cellml.Tie.PUnits
